@@ -44,6 +44,7 @@ class RecDict(dict):
         """another mapping of the same interpreter (e.g. a scratch namespace) reporting to the same log"""
         r = RecDict()
         r.reads, r.writes, r.outside_reads = self.reads, self.writes, self.outside_reads
+        self.siblings = getattr(self, "siblings", []) + [r]
         return r
 
     def __getitem__(self, k):
@@ -239,12 +240,15 @@ def execute(stmt, state):
     dag = DAGCode({"p": ExecutionPhase("p", "p", [stmt])}, "p")
     it = NumpyInterpreter(dag, FUNCS)
     rec = RecDict()
-    for k, v in state.items():
-        dict.__setitem__(rec, k, np.array([1, 1, 1, 1, 1, 1]) if v is None else v)
-    # live variables that share the names of the called functions: calling a function must not read them
-    dict.__setitem__(rec, "<func>f", f_f)
-    dict.__setitem__(rec, "<func>g", f_g)
     prog.install_store(it, rec, rec.sibling)
+    # the execution state is made visible wherever the interpreter may look a variable up (its context and any
+    # mapping chained with it), without going through the recording methods
+    for m in [rec] + getattr(rec, "siblings", []):
+        for k, v in state.items():
+            dict.__setitem__(m, k, np.array([1, 1, 1, 1, 1, 1]) if v is None else v)
+        # live variables that share the names of the called functions: calling a function must not read them
+        dict.__setitem__(m, "<func>f", f_f)
+        dict.__setitem__(m, "<func>g", f_g)
     err = None
     try:
         if it.evaluate_condition(stmt):
